@@ -104,6 +104,41 @@ def _seeds(prop, root):
     return out
 
 
+def _refactor_patches(prop, root):
+    """Multi-site behaviour-preserving rewrites kept as patches (sa/selftest/refactor_patches/<prop>__<name>.diff): must stay
+    silent."""
+    import shutil
+    import subprocess
+    import tempfile
+    from ..run import run_property
+    d = os.path.join(os.path.dirname(os.path.abspath(__file__)), "refactor_patches")
+    out = []
+    if not os.path.isdir(d):
+        return out
+    for name in sorted(os.listdir(d)):
+        if not name.startswith(prop + "__") or not name.endswith(".diff"):
+            continue
+        tmp = tempfile.mkdtemp(prefix="sa_rp_")
+        try:
+            shutil.copytree(os.path.join(root, "fairlearn"), os.path.join(tmp, "fairlearn"),
+                            ignore=shutil.ignore_patterns("__pycache__", "*.pyc"))
+            r = subprocess.run(["patch", "-p1", "-s", "-d", tmp, "-i", os.path.join(d, name)], capture_output=True, text=True)
+            if r.returncode != 0:
+                out.append(dict(prop=prop, kind="refactor", file=name, note=f"refactor patch {name}", outcome="skipped",
+                                why="patch does not apply to this tree"))
+                continue
+            buf = io.StringIO()
+            with contextlib.redirect_stdout(buf):
+                code = run_property(prop, "quick", tmp, 0, write=False)
+            first = [l.strip() for l in buf.getvalue().splitlines() if l.startswith("  ") or l.startswith("ANALYSIS")][:1]
+            out.append(dict(prop=prop, kind="refactor", file=name, note=f"refactor patch {name}", code=code,
+                            outcome={0: "silent", 1: "reported", 2: "analysis-error"}.get(code, "?"),
+                            first_report=(first[0][:200] if first else "")))
+        finally:
+            shutil.rmtree(tmp, ignore_errors=True)
+    return out
+
+
 def _sweep_one(job):
     from .sweep import run_mutant
     code, first = run_mutant(job)
@@ -155,6 +190,7 @@ def run_for(prop: str, root: str, seed: int, evidence_dir=None):
         res = pool.map(_one, items)
     res.extend(_whole_package(prop, root))
     res.extend(_seeds(prop, root))
+    res.extend(_refactor_patches(prop, root))
     mutants = [r for r in res if r["kind"] == "mutant" and r["outcome"] != "skipped"]
     refs = [r for r in res if r["kind"] == "refactor" and r["outcome"] != "skipped"]
     killed = [r for r in mutants if r["outcome"] == "reported"]
